@@ -44,7 +44,10 @@ def run(chk: Check, proj: Project) -> None:
 
     chk.borrow("S11", "marker removal and placeholder substitution dominate every normal return, for both render types (shared with C04-S2)", lambda sub: C04.s2_consumed(sub, proj, world(proj)))
     from ..absstr import Evaluator
+    from . import C19
 
+    chk.borrow("S15", "what is put where a CSS placeholder / </head> was is CSS and what is put where a JS placeholder / </body> was is JS: kind flow from the collected tags to the replacement values and the insertion helper's keyword arguments (shared with C19-S11)",
+               lambda sub: C19.s11_kind_flow(sub, proj, world(proj)), only=lambda o: "render_dependencies" in o.construct or "on_replace_match" in o.construct or "_insert_js_css" in o.construct)
     chk.borrow("S13", "no bookkeeping record survives because its reader does not recognise it: every marker comment / placeholder the writers can emit (for every class name, a leading underscore included) is fully matched by the regex that removes it (shared with C04-S1)",
                lambda sub: C04.s1_records(sub, proj, Evaluator(proj, world(proj).cg)), only=lambda o: "marker-comment" in o.construct or "placeholder" in o.construct.lower())
 
@@ -618,7 +621,7 @@ def s5(chk: Check, proj: Project, m, rule: str = "S5") -> None:
 
 
 MANIFEST = {
-    "text": "Decides, for every statement that can change the document, that it is one of the reviewed transformations (encode/decode, marker removal, placeholder substitution by the per-mode variable, pure insertion s[:i]+c+s[i:]), that the second insertion index is corrected only when the first insertion precedes it, that first-</head>/last-</body> use the right idiom at match.start(), that the input type is restored, and that the middleware rewrites only non-streaming text/html responses. Also: per-kind gating and frame discipline of the default-location insertion, reader patterns not wider than the writer, abstract evaluation of the returned type for str / SafeString / bytes inputs, optional document positions never tested by truthiness, and a middleware gate with no extra metadata condition. Round 4 / triage: the end-tag scanner's language is included in the head/body end tags (word boundaries modelled), marker removal dominates every return (shared with C04-S2), every return is type-evaluated, and the default-location scan must not see inserted content (known finding F33). Round 5: give-up conditions of the insertion (generalised). Round 6: end-tag scanner completeness (regex inclusion in both directions); no re-scan of text with inserted content inside the insertion helper. Round 7: record inclusion borrowed from C04-S1; no literal pre-test of the insertion point at the call site; no value-keyed memo in front of the entry points.",
+    "text": "Decides, for every statement that can change the document, that it is one of the reviewed transformations (encode/decode, marker removal, placeholder substitution by the per-mode variable, pure insertion s[:i]+c+s[i:]), that the second insertion index is corrected only when the first insertion precedes it, that first-</head>/last-</body> use the right idiom at match.start(), that the input type is restored, and that the middleware rewrites only non-streaming text/html responses. Also: per-kind gating and frame discipline of the default-location insertion, reader patterns not wider than the writer, abstract evaluation of the returned type for str / SafeString / bytes inputs, optional document positions never tested by truthiness, and a middleware gate with no extra metadata condition. Round 4 / triage: the end-tag scanner's language is included in the head/body end tags (word boundaries modelled), marker removal dominates every return (shared with C04-S2), every return is type-evaluated, and the default-location scan must not see inserted content (known finding F33). Round 5: give-up conditions of the insertion (generalised). Round 6: end-tag scanner completeness (regex inclusion in both directions); no re-scan of text with inserted content inside the insertion helper. Round 7: record inclusion borrowed from C04-S1; no literal pre-test of the insertion point at the call site; no value-keyed memo in front of the entry points. Round 8: kind flow (js / css lattice) from the collected tags to the placeholder replacements and the insertion helper (borrowed from C19-S11).",
     "note": "Trusted: re.sub replaces exactly the matched spans; UTF-8 encode/decode round-trips. Not decided: byte-for-byte preservation as an equality; case of end tags (statement ambiguous).",
     "technique": "static shape/whitelist of content transformations, control dependence of index compensation and guards",
 }
